@@ -164,7 +164,15 @@ Fixpoint all_uints (l : list num) : option (list Z) :=
   | NUint z :: t => match all_uints t with Some r => Some (z :: r) | None => None end
   | _ => None
   end.
+(* functions.go PointerOrNumericFunction: "*" with ONE argument is the pointer-type / dereference
+   operator (builders.go PointerToFunction), which rejects a number; with two or more it is NumericFunction *)
+Definition is_ptr_form (op : arop) (args : list num) : bool :=
+  match op, args with OpMul, [_] => true | _, _ => false end.
+Definition numeric_builtin (op : arop) (args : list num) : res num :=
+  if is_ptr_form op args then Err else numeric_fold op args.
+
 Definition spec_fold (op : arop) (args : list num) : option (res num) :=
+  if is_ptr_form op args then None else       (* not arithmetic: the property is silent *)
   match op with
   | OpDiv => None
   | _ =>
